@@ -72,7 +72,7 @@ def _cuts(draw, n, p_true):
 
 
 @st.composite
-def digraphs(draw, tier="quick", allow_outside=True):
+def digraphs(draw, tier="quick", allow_outside=True, with_edits=False):
     nmax = 11 if tier == "thorough" else 8
     family = draw(st.sampled_from(_FAMILY_DRAW))
     n_in = draw(st.sampled_from([1, 2, 3, 0] + list(range(4, nmax + 1))))
@@ -139,7 +139,7 @@ def digraphs(draw, tier="quick", allow_outside=True):
     outs = set(draw(st.lists(V, min_size=k, max_size=k, unique=True))) if k else set()
     inset = [v for v in range(N) if v not in outs]
     nodes = draw(st.permutations(inset)) if inset else []
-    return {
+    desc = {
         "family": family,
         "N": N,
         "nodes": list(nodes),
@@ -147,6 +147,16 @@ def digraphs(draw, tier="quick", allow_outside=True):
         "scheme": draw(st.integers(0, N_SCHEMES - 1)),
         "iter": draw(st.integers(0, N_ITER - 1)),
     }
+    if with_edits and N:
+        # a short call history on ONE neighbour-function object over a mutable adjacency dict (see run_callback)
+        edit = st.one_of(
+            st.tuples(st.just("add"), V, V),
+            st.tuples(st.just("remove"), st.integers(0, 63)),  # index into the current edge list, modulo its length
+            st.tuples(st.just("loop"), V),
+        )
+        desc["edits"] = [list(e) for e in draw(st.lists(edit, max_size=3))]
+        desc["reuse_nodes"] = draw(st.booleans())  # hand over the very same list/tuple object on every call
+    return desc
 
 
 # ----------------------------------------------------------------------------- live objects
@@ -238,6 +248,42 @@ def _parse_condense(res, idx):
 
 
 # ----------------------------------------------------------------------------- sub-check: callback variants
+def _judge_condense_result(res, idx, N, edges, nodes, ctx=None):
+    node_set = set(nodes)
+    span = G.spanned(N, edges, nodes)
+    cnodes, citems = _parse_condense(res, idx)
+    bad_span = G.judge_condense(cnodes, citems, N, edges, span)
+    if bad_span is None:
+        return
+    readings = {"spanned-graph": list(bad_span)}
+    if span != node_set:
+        bad_ind = G.judge_condense(cnodes, citems, N, edges, node_set)
+        if bad_ind is None:
+            if ctx is not None:
+                ctx.label("condense-right-on-induced-reading-only")
+            return
+        readings["induced-on-node-set"] = list(bad_ind)
+    raise Violation(
+        f"condense:{bad_span[0]}",
+        {"wrong-under-every-reading": readings, "nodes": sorted(map(sorted, cnodes)), "adjacency": [[sorted(a), sorted(map(sorted, s))] for a, s in citems]},
+    )
+
+
+def _apply_edit(edit, edges):
+    """Returns the new ordered edge list (a copy) or None when the edit is a no-op."""
+    op = edit[0]
+    if op == "add":
+        return edges + [(edit[1], edit[2])]
+    if op == "loop":
+        return edges + [(edit[1], edit[1])]
+    if op == "remove":
+        if not edges:
+            return None
+        i = edit[1] % len(edges)
+        return edges[:i] + edges[i + 1 :]
+    raise AssertionError(f"unknown edit {edit!r}")
+
+
 def run_callback(desc, ctx):
     from solvor.scc import condense, strongly_connected_components, topological_sort
 
@@ -248,16 +294,26 @@ def run_callback(desc, ctx):
     idx = {L[i]: i for i in range(N)}
     if len(idx) != N:
         raise AssertionError("label scheme is not injective")
-    succ = [[] for _ in range(N)]
-    for u, v in edges:
-        succ[u].append(v)
+
+    # ONE mutable adjacency dict and ONE neighbour-function object for the whole case: graph edits below
+    # mutate `adjacency` in place, every call of the three functions gets the same `neighbors`.
+    adjacency = {}
+
+    def load(edge_list):
+        adjacency.clear()
+        for u, v in edge_list:
+            adjacency.setdefault(u, []).append(v)
 
     # labels are built afresh on every call: equal but (except for small ints / interned strings) not
     # identical objects, as a caller computing neighbours on the fly would hand them over
     def neighbors(x):
-        return _container(kind, [lab(sch, j) for j in succ[idx[x]]])
+        return _container(kind, [lab(sch, j) for j in adjacency.get(idx[x], ())])
+
+    shared_nodes = _container(kind, [lab(sch, i) for i in nodes]) if desc.get("reuse_nodes") and kind in (0, 1) else None
 
     def given_nodes():
+        if shared_nodes is not None:
+            return shared_nodes
         return _nodes_iterable(kind, [lab(sch, i) for i in nodes])
 
     node_set = set(nodes)
@@ -284,32 +340,53 @@ def run_callback(desc, ctx):
     ctx.size("largest-scc", max((len(c) for c in classes), default=0))
     ctx.nontrivial(len(classes) >= 2 and any(len(c) >= 2 for c in classes))
 
-    # --- strongly_connected_components: partition of the spanned vertex set, sinks first
-    res = ctx.call(strongly_connected_components, given_nodes(), neighbors)
-    _judge_scc_result("scc", res, idx, N, edges, span)
+    def judge(which, res, edge_list):
+        if which == "scc":  # partition of the vertex set spanned from the nodes, sinks first
+            _judge_scc_result("scc", res, idx, N, edge_list, G.spanned(N, edge_list, nodes))
+        elif which == "topo":  # the subgraph induced on the node set (implementation: `if w in node_set`)
+            _judge_topo_result("topo", res, idx, N, edge_list, node_set)
+        else:
+            _judge_condense_result(res, idx, N, edge_list, nodes, ctx)
 
-    # --- topological_sort: the subgraph induced on the node set (outside neighbours are ignored by the
-    #     implementation: `if w in node_set`)
-    res = ctx.call(topological_sort, given_nodes(), neighbors)
-    _judge_topo_result("topo", res, idx, N, edges, node_set)
+    fns = {"scc": strongly_connected_components, "topo": topological_sort, "condense": condense}
 
-    # --- condense
-    res = ctx.call(condense, given_nodes(), neighbors)
-    cnodes, citems = _parse_condense(res, idx)
-    bad_span = G.judge_condense(cnodes, citems, N, edges, span)
-    if bad_span is None:
-        return
-    readings = {"spanned-graph": list(bad_span)}
-    if outside:
-        bad_ind = G.judge_condense(cnodes, citems, N, edges, node_set)
-        if bad_ind is None:
-            ctx.label("condense-right-on-induced-reading-only")
-            return
-        readings["induced-on-node-set"] = list(bad_ind)
-    raise Violation(
-        f"condense:{bad_span[0]}",
-        {"wrong-under-every-reading": readings, "nodes": sorted(map(sorted, cnodes)), "adjacency": [[sorted(a), sorted(map(sorted, s))] for a, s in citems]},
-    )
+    load(edges)
+    for which, fn in fns.items():
+        judge(which, ctx.call(fn, given_nodes(), neighbors), edges)
+
+    # --- call history: edit the graph behind the SAME neighbour-function object, ask again with an equal
+    #     (or the identical) node sequence, judge against the graph as it is now.  An answer that is wrong
+    #     now but would have been right for an earlier state of the graph is reported as stale.
+    history = [edges]
+    for step, edit in enumerate(desc.get("edits", ()), start=1):
+        now = _apply_edit(edit, history[-1])
+        if now is None:
+            continue
+        load(now)
+        history.append(now)
+        ctx.label(f"edit-{edit[0]}")
+        ctx.count("calls-after-edit", 3)
+        sig_before = (G.scc_classes(N, history[-2], G.spanned(N, history[-2], nodes)), G.is_acyclic(N, history[-2], node_set))
+        sig_now = (G.scc_classes(N, now, G.spanned(N, now, nodes)), G.is_acyclic(N, now, node_set))
+        ctx.label(sig_before[0] != sig_now[0] and "edit-changes-sccs", sig_before[1] != sig_now[1] and "edit-changes-acyclicity")
+        for which, fn in fns.items():
+            res = ctx.call(fn, given_nodes(), neighbors)
+            try:
+                judge(which, res, now)
+            except Violation as v:
+                stale_for = None
+                for back, old in enumerate(reversed(history[:-1]), start=1):
+                    try:
+                        judge(which, res, old)
+                    except Violation:
+                        continue
+                    stale_for = back
+                    break
+                suffix = "stale-after-graph-edit" if stale_for else "wrong-after-graph-edit"
+                raise Violation(
+                    f"{v.bucket}:{suffix}",
+                    {"step": step, "edit": edit, "edges-now": [list(e) for e in now], "right-for-state-n-edits-ago": stale_for, "verdict-now": v.detail},
+                )
 
 
 # ----------------------------------------------------------------------------- sub-check: *_edges(backend="python")
@@ -353,6 +430,6 @@ def run_edges(desc, ctx):
 
 
 SUBS = [
-    Sub("callback", run_callback, strategy=lambda tier: digraphs(tier), quick=2500, thorough=6000, workers_quick=4),
+    Sub("callback", run_callback, strategy=lambda tier: digraphs(tier, with_edits=True), quick=2500, thorough=6000, workers_quick=4),
     Sub("edges", run_edges, strategy=lambda tier: digraphs(tier, allow_outside=False), quick=500, thorough=2000, workers_quick=2),
 ]
